@@ -545,6 +545,7 @@ template<class Shape_, class Space_> vj::Value run_mesh(const vj::Value& c, Mesh
     Cubature::Rule<Shape_, double, double, Tiny::Vector<double, dim>> rule(Cubature::ctor_factory, fac);
     const double unit = (dim == 2 ? 2.0 : (Fam<Shape_>::cube ? 12.0 : 6.0)) * std::ldexp(1.0, K * dim);
     bool volnoise = false; double vdev = 0.0, total = 0.0;
+    Worst wvolfn;
     std::fputs(",\"vol\":[", f);
     for(Index cc(0); cc < ncells; ++cc)
     {
@@ -557,6 +558,8 @@ template<class Shape_, class Space_> vj::Value run_mesh(const vj::Value& c, Mesh
         v += rule.get_weight(q) * std::fabs(double(ce.td.jac_det));
       }
       total += v;
+      // the evaluator's own volume() (a hard-coded rule per shape) must be the same integral
+      { const double vf = double(ce.te.volume()); wvolfn.add(std::fabs(vf - v), 1e-11 * (1.0 + std::fabs(v))); }
       const double s = v * unit, r = std::nearbyint(s);
       const double dev = std::fabs(s - r) / std::max(1.0, std::fabs(r));
       if(!(dev <= 1e-11) || !(std::fabs(r) < 1073741824.0)) volnoise = true;
@@ -565,6 +568,7 @@ template<class Shape_, class Space_> vj::Value run_mesh(const vj::Value& c, Mesh
     }
     ce.finish();
     std::fprintf(f, "],\"volnoise\":%s,\"voldev\":%.3e,\"voltotal\":%.17g", volnoise ? "true" : "false", vdev, total);
+    put_worst(f, "volfn", wvolfn);
   }
 
   // ---- InverseMapping ----
